@@ -61,13 +61,12 @@ package cosmoslane
 //@   ensures[C07.nested_clean,C16.nested_clean] !single(payload(tx)) ==> ((hcN[0] == old(hcN[0]) + 1) == (forall i int :: (0 <= i && i < txNMsgs(payload(tx))) ==> cleanMsg(old(keys(rmd.disabledNestedMsgs)), txMsgTag(payload(tx), i), txMsgObj(payload(tx), i), 1)))
 
 // The screening set is exactly the configured list (and the map is allocated: precondition of the two functions above).
-// (no modifies clause: the loop writes the freshly made map, and a loop frame "every other map is unchanged" is not expressible;
-// callers therefore assume nothing about the heap after this constructor)
 //@ func NewCosmosLaneRejectAuthzMsgsDecorator(disabledNestedMsgs []string) CLRejectAuthzMsgsDecorator
+//@   modifies nothing
 //@   ensures[C07.disabled_set_is_list,C16.disabled_set_is_list] result.disabledNestedMsgs != nil && (forall s string :: (s in result.disabledNestedMsgs) == (exists i int :: 0 <= i && i < len(disabledNestedMsgs) && disabledNestedMsgs[i] == s))
 //@   panics never
 //@ loop 1
-//@   invariant -1 <= rangeindex && rangeindex < len(disabledNestedMsgs) && d.disabledNestedMsgs != nil && fresh(d.disabledNestedMsgs) && (forall s string :: (s in d.disabledNestedMsgs) == (exists i int :: 0 <= i && i <= rangeindex && disabledNestedMsgs[i] == s))
+//@   invariant -1 <= rangeindex && rangeindex < len(disabledNestedMsgs) && d.disabledNestedMsgs != nil && fresh(d.disabledNestedMsgs) && (forall s string :: (s in d.disabledNestedMsgs) == (exists i int :: 0 <= i && i <= rangeindex && disabledNestedMsgs[i] == s)) && (forall r ref :: !fresh(r) ==> keysAt(r, d.disabledNestedMsgs) == old(keysAt(r, d.disabledNestedMsgs)))
 
 // ---------------------------------------------------------------------------------------------
 // 993c — vesting-account creation only for addresses with a stored proof of external ownership (C16)
